@@ -396,3 +396,59 @@ def kf_none_text_order(i0: int, i1: int, i2: int, i3: int, i4: int, i5: int, i6:
     if not kf_c09_1(notes):
         return True
     return V(got == want)
+
+
+# ------------------------------------------------------------------ kernels with truly symbolic strings
+class _SymPath:
+    """file_path stand-in whose text is a symbolic string (pathlib would realise it)"""
+
+    def __init__(self, s):
+        self.s = s
+
+    def __str__(self):
+        return self.s
+
+
+STEM_CHARS = "aoz/_"
+
+
+def k_file_label(stem: str) -> bool:
+    """
+    pre: 1 <= len(stem) <= 4
+    pre: all(ch in STEM_CHARS for ch in stem)
+    post: _
+    """
+    # G file: the header label of a page stem.zo is the page link [[stem]] (dots other than the
+    # extension are outside the bound: prepend_zdir treats any dotted name as having an extension)
+    n = mk(dict(DEFAULT, i=0))
+    n.file_path = _SymPath(stem + ".zo")
+    return V(G.FILE.keyfunc(n) == "[[" + stem + "]]")
+
+
+def k_none_key(stem: str, line: int) -> bool:
+    """
+    pre: 1 <= len(stem) <= 3 and all(ch in STEM_CHARS for ch in stem)
+    pre: 1 <= line <= 9
+    post: _
+    """
+    # O none for single-digit lines: key orders by (path, line)
+    a = mk(dict(DEFAULT, i=0))
+    b = mk(dict(DEFAULT, i=1))
+    a.file_path = _SymPath(stem + ".zo")
+    b.file_path = _SymPath(stem + ".zo")
+    a.line_no, b.line_no = line, 5
+    ka, kb = O.NONE.keyfunc(a), O.NONE.keyfunc(b)
+    return V((ka < kb) == (line < 5) and (ka == kb) == (line == 5))
+
+
+def k_tag_label(t1: str, t2: str) -> bool:
+    """
+    pre: 1 <= len(t1) <= 2 and 1 <= len(t2) <= 2
+    pre: all(ch in "abAB1_" for ch in t1) and all(ch in "abAB1_" for ch in t2)
+    post: _
+    """
+    # the area label of a note is its sorted tags, each with '#', joined by ' | '
+    n = mk(dict(DEFAULT, i=0))
+    n.areas = [t1, t2]
+    lo, hi = (t1, t2) if t1 <= t2 else (t2, t1)
+    return V(G.AREA.keyfunc(n) == "#" + lo + " | #" + hi)
